@@ -178,7 +178,7 @@ def run(R):
         stores = [(bb, i) for bb, i, st in mirlib.assignments(b, lambda st: st['p'].get('pr') == ['*'] and 'error' in show(b.origin(st['p']['l'])))]
         R.floor('C06.R3', 'stash stores', len(stores), 1)
         for bb, i in stores:
-            nxt = [x for x, t in b.calls(name='split_to') if b.dominates(bb, x)]
+            nxt = [x for x, t, w_ in whole_buffer_takes(b) if b.dominates(bb, x)]
             R.check(bool(nxt), 'C06.R3', 'stash-then-flush', site(b, bb, i), 'a stored error is followed by flushing the buffer (split_to sites dominated: %d)' % len(nxt))
         # failure arm of encode_item: truncate to the offset saved before the call
         eb, et = b.call1(name='encode_item')
@@ -187,7 +187,7 @@ def run(R):
         truncs = [(x, t) for x, t in b.calls(name='truncate') if mentions_local_named(b, b.origin(t['args'][0]), 'buf')]
         after_fail = b.reach_ps(et['t'], know0={dest: ('v', 'Err', None)})
         uncut = b.reach_ps(et['t'], know0={dest: ('v', 'Err', None)}, removed={x for x, _ in truncs})
-        exits = [x for x in sorted(uncut) if b.term(x)['k'] == 'ret' or (b.term(x)['k'] == 'call' and b.term(x).get('name') in ('split_to', 'poll_next', 'encode_item') and x != eb)]
+        exits = [x for x in sorted(uncut) if b.term(x)['k'] == 'ret' or (b.term(x)['k'] == 'call' and b.term(x).get('name') in ('split_to', 'split', 'poll_next', 'encode_item') and x != eb)]
         R.check(bool(truncs) and not exits, 'C06.R3', 'partial-frame-cut', site(b, exits[0]) if exits else site(b, eb),
                 'after a failed encode_item every path to a flush, a return or the next poll first cuts the partial frame off (truncate sites %d; uncut exits %r)' % (len(truncs), [b.loc(x) for x in exits][:4]))
         for tx, tt in truncs:
@@ -203,9 +203,9 @@ def run(R):
                 okt = bool(lb) and b.dominates(lb[0], eb) and bool(srcp) and all(b.dominates(sp_, lb[0]) for sp_ in srcp)
             R.check(okt, 'C06.R3', 'partial-frame-cut:offset', site(b, tx), 'truncate(buf, offset) with offset = buf.len() saved in the same iteration, after the source poll and before encode_item: %r' % okt)
         # every split_to yields the whole buffer
-        for x, t in b.calls(name='split_to'):
-            a = strip_refs(b.origin(t['args'][1]))
-            R.check(is_call(a, name='len') and mentions_local_named(b, a, 'buf') and mentions_local_named(b, b.origin(t['args'][0]), 'buf'), 'C06.R3', 'whole-buffer-yield', site(b, x), 'split_to(%s)' % show(a)[:60])
+        for x, t, w_ in whole_buffer_takes(b):
+            a = strip_refs(b.origin(t['args'][1])) if len(t['args']) > 1 else ('whole',)
+            R.check(w_ and mentions_local_named(b, b.origin(t['args'][0]), 'buf'), 'C06.R3', 'whole-buffer-yield', site(b, x), 'split_to(%s)' % show(a)[:60])
 
     # ---------------------------------------------------------------- R4 plumbing
     R.describe('C06.R4', 'limit plumbing: server/client configuration fields reach Streaming::new_request/new_response (decode) and map_response/EncodeBody (encode); encode and decode limits are not swapped')
